@@ -26,6 +26,7 @@ Print Assumptions C05_forwarded_le_granted.
 
 Theorem C05_low_water_mark : LOW_CAPACITY = 4.
 Proof. exact low_capacity_val. Qed.
+Print Assumptions C05_low_water_mark.
 
 (* each accepted item yields exactly one ItemReceived to the receiver's owner in the same step
    (so delivery order = send order), payload unchanged and tagged with the sender's version, and
